@@ -246,6 +246,20 @@ fn features(case: &Case, lines: &[String]) -> Vec<&'static str> {
         }
     }
     walk(&case.prog.stmts, &mut f, 0);
+    let mut dump = String::new();
+    let mut it = [0usize; 0].iter();
+    dump_stmts(&case.prog.stmts, &mut it, &mut dump);
+    let mut decl = vec![];
+    collect_declares(&case.prog.stmts, &mut decl);
+    for (_, e) in &decl {
+        dump_expr(e, &mut dump);
+    }
+    if dump.contains(&format!("(call {}", hex("random"))) {
+        f.push("random");
+    }
+    if dump.contains(&format!("(call {}", hex("ite"))) {
+        f.push("ite");
+    }
     if !case.read_names.is_empty() {
         f.push("reads-output");
     }
@@ -274,7 +288,7 @@ fn nontrivial_for(prop: &str, feats: &[&'static str]) -> bool {
         "C11" => has("parse-ok"),
         "C13" => has("fault-plan") && has("bind-ok"),
         "C14" => has("rows>0") && has("declare"),
-        "C17" => has("rows>0"),
+        "C17" => has("rows>0") && has("random"),
         "C18" => has("rows>0") && (has("let") || has("loop")),
         _ => has("parse-ok"),
     }
@@ -353,6 +367,7 @@ pub fn judge_run_case(ctx: &mut Ctx, suite: &str, cs: u64, case: &Case, src: &st
                 verdicts.push(oracle_c19_rows(&run.lines, &p.row_lines));
             }
         }
+        "C17" => verdicts.push(oracle_c17(&run.rng_log)),
         _ => {}
     }
     // nothing may ever panic, whatever the property
@@ -1293,6 +1308,7 @@ pub fn run_property(ctx: &mut Ctx) {
     crate::corpus::run_corpus(ctx);
     match prop.as_str() {
         "C01" | "C02" | "C03" | "C04" | "C05" | "C06" | "C11" | "C13" | "C14" | "C18" => suite_run(ctx, "run", k(6000, 60000)),
+        "C17" => suite_run(ctx, "run", k(6000, 60000)),
         "C10" => {
             suite_run(ctx, "run", k(6000, 60000));
             suite_ops(ctx, "ops", k(20, 2000));
